@@ -201,6 +201,18 @@ Definition model_agrees (c : case) : bool :=
 
 (* ---------------------------------------------------------------- the specification *)
 
+(* Written from the property text, on observations only (the caller's view of the original
+   error, the caller's view after k hops, the status line of the outermost response):
+     FStatus   the HTTP status is the specification's for the error's code, else the error's
+               own status (MarshalError's documented default 500 when it has none), and it
+               is the status the caller reads;
+     FIs       errors.Is against the 15 standard values answers as on the original (and a
+               non-empty code is still the code);
+     FDetail   the detail JSON (canonical form) is the original's;
+     FMessage  the message the caller finds after k hops is the one found after one hop;
+     FHead     (boundary of the HEAD finding, not in the property text) with a HEAD carrier
+               errors.Is and the code are exactly those of the documented status fallback. *)
+
 (* the status the distribution specification assigns to each code (written out again here,
    independently of the model's table) *)
 Definition spec_table : list (bytes * Z) :=
@@ -210,7 +222,6 @@ Definition spec_table : list (bytes * Z) :=
     (s "SIZE_INVALID", 400); (s "UNAUTHORIZED", 401); (s "DENIED", 403); (s "UNSUPPORTED", 400);
     (s "TOOMANYREQUESTS", 429); (s "RANGE_INVALID", 416) ]%Z.
 
-(* the status an error must travel with: the specification's for its code, else its own, else 500 *)
 Definition expected_status (v0 : view) : Z :=
   let own := match v_status v0 with Some st => st | None => 500%Z end in
   match v_code v0 with
@@ -218,41 +229,34 @@ Definition expected_status (v0 : view) : Z :=
   | None => own
   end.
 
-(* the client refuses error bodies above errorBodySizeLimit (8 KiB): identity, detail and
-   message are only required of errors whose responses fit *)
-Definition lens_ok (o : callrec) : bool := forallb (fun n => Z.leb n 8192) (o_lens o).
-
 Definition status_ok_call (v0 : view) (o : callrec) : bool :=
   optz_eqb (v_status (o_view o)) (Some (o_wstatus o)) && Z.eqb (o_wstatus o) (expected_status v0).
 
 Definition is_ok_call (v0 : view) (o : callrec) : bool :=
-  negb (lens_ok o) ||
-  (bool_list_eqb (v_is (o_view o)) (v_is v0) &&
-   match v_code v0 with
-   | Some (b :: r) => optb_eqb (v_code (o_view o)) (Some (b :: r)) && beqb (o_wcode o) (b :: r)
-   | _ => true
-   end).
+  bool_list_eqb (v_is (o_view o)) (v_is v0) &&
+  match v_code v0 with
+  | Some (b :: r) => optb_eqb (v_code (o_view o)) (Some (b :: r))
+  | _ => true
+  end.
 
 Definition detail_ok_call (v0 : view) (o : callrec) : bool :=
-  negb (lens_ok o) ||
-  (optb_eqb (v_detail (o_view o)) (v_detail v0) && optb_eqb (o_wdetail o) (v_detail v0)).
+  optb_eqb (v_detail (o_view o)) (v_detail v0).
 
-(* the message on the wire is, from the first hop on, always the same, and it is what the
-   caller finds in the error *)
-Definition message_ok_call (m1 : bytes) (o : callrec) : bool :=
-  negb (lens_ok o) ||
-  (beqb (o_wmsg o) m1 && optb_eqb (v_msg (o_view o)) (Some (o_wmsg o))).
+(* the message after the first hop *)
+Definition first_msg (c : case) : option (option bytes) :=
+  match c_calls c with OCall o :: _ => Some (v_msg (o_view o)) | _ => None end.
 
-(* HEAD responses have no body: the documented fallback is the status class *)
+Definition message_ok_call (m1 : option bytes) (o : callrec) : bool :=
+  optb_eqb (v_msg (o_view o)) m1.
+
+(* HEAD responses have no body: the documented fallback is by status *)
 Definition head_value (st : Z) : option bytes :=
-  match st with
-  | 404 => Some (s "NAME_UNKNOWN")
-  | 401 => Some (s "UNAUTHORIZED")
-  | 403 => Some (s "DENIED")
-  | 429 => Some (s "TOOMANYREQUESTS")
-  | 400 => Some (s "UNSUPPORTED")
-  | _ => None
-  end%Z.
+  if Z.eqb st 404 then Some (s "NAME_UNKNOWN")
+  else if Z.eqb st 401 then Some (s "UNAUTHORIZED")
+  else if Z.eqb st 403 then Some (s "DENIED")
+  else if Z.eqb st 429 then Some (s "TOOMANYREQUESTS")
+  else if Z.eqb st 400 then Some (s "UNSUPPORTED")
+  else None.
 
 Definition head_is (st : Z) (t : std) : bool :=
   optb_eqb (head_value st) (Some (std_code t)) || (Z.eqb st 416 && std_eqb t SRangeInvalid).
@@ -260,9 +264,6 @@ Definition head_is (st : Z) (t : std) : bool :=
 Definition head_ok_call (o : callrec) : bool :=
   bool_list_eqb (v_is (o_view o)) (map (head_is (o_wstatus o)) all_std) &&
   optb_eqb (v_code (o_view o)) (head_value (o_wstatus o)).
-
-Definition first_wmsg (c : case) : option bytes :=
-  match c_calls c with OCall o :: _ => Some (o_wmsg o) | _ => None end.
 
 Definition field_ok_call (c : case) (o : callobs) : bool :=
   match o with
@@ -272,7 +273,7 @@ Definition field_ok_call (c : case) (o : callobs) : bool :=
       | FStatus => status_ok_call (c_v0 c) o
       | FIs => is_ok_call (c_v0 c) o
       | FDetail => detail_ok_call (c_v0 c) o
-      | FMessage => match first_wmsg c with Some m1 => message_ok_call m1 o | None => false end
+      | FMessage => match first_msg c with Some m1 => message_ok_call m1 o | None => false end
       | FHead => negb (carrier_head (c_carrier c)) || head_ok_call o
       end
   end.
@@ -283,8 +284,16 @@ Definition obs_ok (c : case) : bool :=
 
 (* ---------------------------------------------------------------- known findings *)
 
-(* status 416 answers errors.Is(ErrRangeInvalid) by itself (httpError.Is): the answer after a
-   hop differs from the original's.  Computed from observations only, as the harness tag. *)
+(* Each is computed from observations and the carrier only, exactly as the harness computes
+   the tag "finding" (harness/cmd/c07/main.go). *)
+
+(* some error response on the way was larger than the client's errorBodySizeLimit *)
+Definition lens_ok (o : callrec) : bool := forallb (fun n => Z.leb n 8192) (o_lens o).
+Definition oversize (c : case) : bool :=
+  existsb (fun o => match o with OCall o => negb (lens_ok o) | OBad _ => false end) (c_calls c).
+
+(* status 416 answers errors.Is(ErrRangeInvalid) by itself (httpError.Is): what the first
+   response says about ErrRangeInvalid differs from the original's answer *)
 Definition ambig416 (c : case) : bool :=
   match c_calls c with
   | OCall o :: _ =>
@@ -293,24 +302,449 @@ Definition ambig416 (c : case) : bool :=
   | _ => false
   end.
 
-Definition msg1_empty (c : case) : bool :=
-  match first_wmsg c with Some [] => true | _ => false end.
+Inductive finding :=
+  | KNone
+  | KHeadIdentity      (* HEAD responses carry no body: code identity degrades to the status class *)
+  | KHeadDetail        (* ... and the detail is lost *)
+  | KOversize          (* error body above 8 KiB: the client drops code, detail and message *)
+  | KIs416             (* status 416 and code RANGE_INVALID disagree *)
+  | KUploadMessage.    (* upload carriers: handler / client text prefixes pile up per hop *)
 
-Definition known_case (c : case) : bool :=
+Definition finding_of (c : case) : finding :=
+  let head := carrier_head (c_carrier c) in
   match c_field c with
-  | FStatus | FHead => false
-  | FIs => carrier_head (c_carrier c) || ambig416 c
-  | FDetail => carrier_head (c_carrier c)
-  | FMessage => carrier_head (c_carrier c) || opwrap (c_carrier c) || msg1_empty c
+  | FStatus | FHead => KNone
+  | FIs => if head then KHeadIdentity else if oversize c then KOversize
+           else if ambig416 c then KIs416 else KNone
+  | FDetail => if head then KHeadDetail else if oversize c then KOversize else KNone
+  | FMessage => if head then KNone else if oversize c then KOversize
+                else if opwrap (c_carrier c) then KUploadMessage else KNone
   end.
 
-(* a case exercises the property when an error really crosses at least two hops, or is
-   wrapped, or carries a message that begins like a prefix the code adds *)
+Definition known_case (c : case) : bool :=
+  match finding_of c with KNone => false | _ => true end.
+
+(* a case exercises its clause when the error crosses at least two hops and the clause has
+   something to lose: a status that is not the default 500 (table row or own status), an
+   errors.Is answer that is true, a detail, any message (every second hop has prefixes to
+   strip), a HEAD carrier *)
 Definition nontrivial (c : case) : bool :=
-  Nat.leb 2 (length (c_calls c)) ||
-  match c_err c with EStd _ => false | _ => true end.
+  Nat.leb 2 (length (c_calls c)) &&
+  match c_field c with
+  | FStatus => negb (Z.eqb (expected_status (c_v0 c)) 500)
+  | FIs => existsb (fun b => b) (v_is (c_v0 c))
+  | FDetail => match v_detail (c_v0 c) with Some _ => true | None => false end
+  | FMessage => true
+  | FHead => carrier_head (c_carrier c)
+  end.
 
 Definition mismatches (cs : list case) : list (N * bool) :=
   bad_from 0 (fun c => if model_agrees c then None else Some (obs_ok c)) cs.
 Definition bad_obs (cs : list case) : list (N * bool) :=
   bad_from 0 (fun c => if obs_ok c then None else Some (model_agrees c)) cs.
+
+(* ================================================================ soundness of the check *)
+
+(* ---------------------------------------------------------------- decoding the comparisons *)
+
+Lemma option_eqb_eq {A} (eqb : A -> A -> bool) :
+  (forall a b, eqb a b = true <-> a = b) ->
+  forall a b, option_eqb eqb a b = true <-> a = b.
+Proof.
+  intros H [a|] [b|]; cbn; split; intros E; try discriminate; try reflexivity.
+  - f_equal. now apply H.
+  - injection E as ->. now apply H.
+Qed.
+
+Lemma optb_eqb_eq a b : optb_eqb a b = true <-> a = b.
+Proof. apply option_eqb_eq, beqb_eq. Qed.
+Lemma optz_eqb_eq a b : optz_eqb a b = true <-> a = b.
+Proof. apply option_eqb_eq, Z.eqb_eq. Qed.
+Lemma bool_list_eqb_eq a b : bool_list_eqb a b = true <-> a = b.
+Proof. apply list_eqb_eq. intros x y. apply eqb_true_iff. Qed.
+
+Lemma view_eqb_eq a b : view_eqb a b = true -> a = b.
+Proof.
+  unfold view_eqb. intros H.
+  repeat (apply andb_true_iff in H as [H ?]).
+  destruct a, b; cbn in *.
+  apply bool_list_eqb_eq in H. apply optz_eqb_eq in H5. apply eqb_prop in H4.
+  apply optb_eqb_eq in H3, H2, H1. apply beqb_eq in H0. now subst.
+Qed.
+
+(* ---------------------------------------------------------------- the paths the harness drives *)
+
+Lemma swrap_nowv C f : nowv (swrap C f) = true.
+Proof. destruct C, f; reflexivity. Qed.
+Lemma cwrap_nowv C o : nowv (cwrap C o) = true.
+Proof. destruct C, o; reflexivity. Qed.
+
+Lemma opwrap_none C f o : opwrap C = false -> swrap C f = WNone /\ cwrap C o = WNone.
+Proof. destruct C, f, o; cbn; intros H; try discriminate H; auto. Qed.
+
+Lemma head_none C f o : carrier_head C = true -> swrap C f = WNone /\ cwrap C o = WNone.
+Proof. destruct C, f, o; cbn; intros H; try discriminate H; auto. Qed.
+
+Lemma path_from_length C f lens : length (path_from C f lens) = length lens.
+Proof. revert f. induction lens as [|n r IH]; intros f; cbn; [reflexivity | now rewrite IH]. Qed.
+
+Lemma path_from_nowv C f lens : forallb nowvspec (path_from C f lens) = true.
+Proof.
+  revert f. induction lens as [|n r IH]; intros f; cbn [path_from forallb]; [reflexivity|].
+  rewrite IH, andb_true_r. unfold nowvspec. cbn [h_swrap h_cwrap].
+  now rewrite swrap_nowv, cwrap_nowv.
+Qed.
+
+Definition fits (lens : list Z) : bool := forallb (fun n => Z.leb n 8192) lens.
+
+Lemma path_from_body C f lens :
+  carrier_head C = false -> fits lens = true -> forallb bodyspec (path_from C f lens) = true.
+Proof.
+  intros Hh. revert f. induction lens as [|n r IH]; intros f; cbn [path_from forallb fits]; [reflexivity|].
+  intros H. apply andb_true_iff in H as [H1 H2]. rewrite (IH _ H2), andb_true_r.
+  unfold bodyspec. cbn [h_head h_len h_swrap h_cwrap].
+  rewrite Hh, swrap_nowv, cwrap_nowv. cbn. unfold error_body_size_limit. now rewrite H1.
+Qed.
+
+Lemma path_from_plain C f lens :
+  carrier_head C = false -> opwrap C = false -> fits lens = true ->
+  forallb plainspec (path_from C f lens) = true.
+Proof.
+  intros Hh Ho. revert f. induction lens as [|n r IH]; intros f; cbn [path_from forallb fits]; [reflexivity|].
+  intros H. apply andb_true_iff in H as [H1 H2]. rewrite (IH _ H2), andb_true_r.
+  unfold plainspec. cbn [h_head h_len h_swrap h_cwrap].
+  destruct (opwrap_none C f (match r with [] => true | _ => false end) Ho) as [-> ->].
+  rewrite Hh. cbn. unfold error_body_size_limit. now rewrite H1.
+Qed.
+
+Lemma path_from_head C f lens :
+  carrier_head C = true -> forallb headspec (path_from C f lens) = true.
+Proof.
+  intros Hh. revert f. induction lens as [|n r IH]; intros f; cbn [path_from forallb]; [reflexivity|].
+  rewrite IH, andb_true_r. unfold headspec. cbn [h_head h_swrap h_cwrap].
+  destruct (head_none C f (match r with [] => true | _ => false end) Hh) as [-> ->].
+  now rewrite Hh.
+Qed.
+
+(* ---------------------------------------------------------------- the outermost response *)
+
+Lemma last_wire_snoc l hs e :
+  last_wire (l ++ [hs]) e = marshal_error sp cp (apply_wrap sp cp (h_swrap hs) (hops sp cp l e)).
+Proof.
+  revert e. induction l as [|a l IH]; intros e; [reflexivity|].
+  cbn [app hops]. rewrite <- IH. destruct l; reflexivity.
+Qed.
+
+Lemma nonempty_snoc {A} (l : list A) : l <> [] -> exists l' a, l = l' ++ [a].
+Proof. intros H. destruct (exists_last H) as [l' [a ->]]. eauto. Qed.
+
+Lemma forallb_snoc {A} (f : A -> bool) l a :
+  forallb f (l ++ [a]) = true -> forallb f l = true /\ f a = true.
+Proof. rewrite forallb_app. cbn. rewrite andb_true_r. apply andb_true_iff. Qed.
+
+(* ---------------------------------------------------------------- what the theorems say about a path *)
+
+Lemma wire_status p e :
+  p <> [] -> forallb nowvspec p = true ->
+  r_status (last_wire p e) = marshal_status e /\ as_http (hops sp cp p e) = Some (marshal_status e).
+Proof.
+  intros Hne Hp. destruct (nonempty_snoc p Hne) as [l [hs ->]].
+  apply forallb_snoc in Hp as [Hl Hhs].
+  rewrite last_wire_snoc, hops_snoc. cbn [r_status marshal_error].
+  rewrite (as_http_hop sp cp) by assumption.
+  unfold nowvspec in Hhs. apply andb_true_iff in Hhs as [Hs _].
+  rewrite (wrap_marshal_status sp cp) by assumption.
+  now rewrite (status_preserved sp cp) by assumption.
+Qed.
+
+Lemma spec_table_is_model : spec_table = error_statuses.
+Proof. reflexivity. Qed.
+
+(* status_table, read on the caller's view of the original *)
+Lemma status_spec e : marshal_status e = expected_status (mview e).
+Proof.
+  unfold expected_status, marshal_status, marshal_code, mview. cbn [v_status v_code].
+  rewrite spec_table_is_model.
+  destruct (as_err e) as [w|]; cbn [option_map]; [|reflexivity].
+  destruct (w_code w); reflexivity.
+Qed.
+
+Lemma mview_detail e : v_detail (mview e) = marshal_detail e.
+Proof.
+  unfold mview, marshal_detail. cbn [v_detail]. destruct (as_err e) as [w|]; [|reflexivity].
+  destruct (w_detail w) as [[|]|]; reflexivity.
+Qed.
+
+Lemma body_code_detail p e :
+  p <> [] -> forallb bodyspec p = true ->
+  v_code (mview (hops sp cp p e)) = Some (marshal_code e) /\
+  v_detail (mview (hops sp cp p e)) = v_detail (mview e).
+Proof.
+  intros Hne Hp. rewrite !mview_detail. rewrite (detail_preserved sp cp) by assumption. split; [|reflexivity].
+  destruct (nonempty_snoc p Hne) as [l [hs ->]]. apply forallb_snoc in Hp as [Hl Hhs].
+  rewrite hops_snoc. unfold mview. cbn [v_code].
+  destruct (as_err_hop sp cp hs (hops sp cp l e) Hhs) as [m ->]. cbn.
+  now rewrite (code_preserved sp cp) by assumption.
+Qed.
+
+Lemma body_msg p e :
+  p <> [] -> forallb plainspec p = true -> marshal_status e <> 0%Z ->
+  v_msg (mview (hops sp cp p e)) = Some (wmsg sp cp e).
+Proof.
+  intros Hne Hp Hst. destruct (nonempty_snoc p Hne) as [l [hs ->]]. apply forallb_snoc in Hp as [Hl Hhs].
+  rewrite hops_snoc. unfold mview. cbn [v_msg].
+  rewrite (cmsg_hop sp cp) by now apply plainspec_body.
+  destruct (plainspec_wraps hs Hhs) as [-> _]. cbn [apply_wrap].
+  now rewrite (wmsg_fixpoint sp cp) by assumption.
+Qed.
+
+Lemma head_value_map st : head_value st = option_map std_code (head_map st).
+Proof.
+  unfold head_value, head_map.
+  repeat match goal with |- context [Z.eqb st ?b] => destruct (Z.eqb st b) end; reflexivity.
+Qed.
+
+Lemma head_is_spec st t : head_is st t = is_head st t.
+Proof.
+  unfold head_is, is_head, is_range. rewrite head_value_map.
+  destruct (head_map st) as [u|]; cbn [option_map optb_eqb option_eqb]; [|reflexivity].
+  unfold optb_eqb. cbn [option_eqb]. now rewrite beqb_sym, std_code_beqb.
+Qed.
+
+Lemma head_view p e :
+  p <> [] -> forallb headspec p = true ->
+  mview (hops sp cp p e) = mview (head_result e).
+Proof.
+  intros Hne Hp. destruct p as [|hs l]; [contradiction|]. now rewrite (hops_head sp cp).
+Qed.
+
+Lemma single_to_gerr se : single (to_gerr se) = true.
+Proof. unfold single. induction se; cbn in *; auto. Qed.
+
+(* ---------------------------------------------------------------- one call *)
+
+Record call_ok (C : carrier) (e : gerr) (k : nat) (o : callrec) : Prop := {
+  ck_len : length (o_lens o) = k;
+  ck_pos : k <> 0%nat;
+  ck_run : is_ok (hops_r sp cp (path C (o_lens o)) e) = true;
+  ck_wst : o_wstatus o = r_status (last_wire (path C (o_lens o)) e);
+  ck_wcode : o_wcode o = w_code (r_err (last_wire (path C (o_lens o)) e));
+  ck_view : o_view o = mview (hops sp cp (path C (o_lens o)) e)
+}.
+
+Lemma call_agrees_ok C e k o : call_agrees C e k (OCall o) = true -> call_ok C e k o.
+Proof.
+  unfold call_agrees. intros H.
+  apply andb_true_iff in H as [H Hview]. apply andb_true_iff in H as [H _].
+  apply andb_true_iff in H as [H _]. apply andb_true_iff in H as [H Hcode].
+  apply andb_true_iff in H as [H Hst]. apply andb_true_iff in H as [H Hrun].
+  apply andb_true_iff in H as [Hlen Hpos].
+  constructor.
+  - now apply Nat.eqb_eq.
+  - apply negb_true_iff in Hpos. now apply Nat.eqb_neq.
+  - assumption.
+  - now apply Z.eqb_eq.
+  - now apply beqb_eq.
+  - now apply view_eqb_eq.
+Qed.
+
+Lemma all_calls_forallb (f : nat -> callobs -> bool) (g : callobs -> bool) :
+  (forall k o, f k o = true -> g o = true) ->
+  forall l k, all_calls f k l = true -> forallb g l = true.
+Proof.
+  intros H. induction l as [|o l IH]; intros k; cbn; [reflexivity|]. intros E.
+  apply andb_true_iff in E as [E1 E2]. now rewrite (H _ _ E1), (IH _ E2).
+Qed.
+
+Section Call.
+  Variables (C : carrier) (e : gerr) (k : nat) (o : callrec).
+  Hypothesis Hok : call_ok C e k o.
+
+  Let p := path C (o_lens o).
+
+  Lemma p_ne : p <> [].
+  Proof.
+    intros E. apply (f_equal (@length hopspec)) in E. unfold p, path in E.
+    rewrite path_from_length, (ck_len _ _ _ _ Hok) in E. now apply (ck_pos _ _ _ _ Hok).
+  Qed.
+
+  Lemma call_status_range : (100 <= marshal_status e <= 999)%Z.
+  Proof.
+    pose proof (ck_run _ _ _ _ Hok) as Hr. pose proof p_ne as Hne. fold p in Hr.
+    destruct p as [|hs l] eqn:Ep; [contradiction|].
+    destruct (hops_r sp cp (hs :: l) e) as [e'| | |] eqn:E; try discriminate.
+    apply (hops_r_status sp cp hs l e e' E).
+    assert (Hn : forallb nowvspec (hs :: l) = true) by (rewrite <- Ep; apply path_from_nowv).
+    cbn in Hn. apply andb_true_iff in Hn as [Hn _]. unfold nowvspec in Hn.
+    now apply andb_true_iff in Hn as [Hn _].
+  Qed.
+
+  Lemma call_status :
+    o_wstatus o = marshal_status e /\ v_status (o_view o) = Some (marshal_status e).
+  Proof.
+    rewrite (ck_wst _ _ _ _ Hok), (ck_view _ _ _ _ Hok). fold p.
+    destruct (wire_status p e p_ne (path_from_nowv C true (o_lens o))) as [H1 H2].
+    split; [exact H1 | exact H2].
+  Qed.
+
+  Lemma call_status_ok : status_ok_call (mview e) o = true.
+  Proof.
+    unfold status_ok_call. destruct call_status as [H1 H2]. rewrite H2, H1.
+    apply andb_true_iff. split; [now apply optz_eqb_eq | apply Z.eqb_eq, status_spec].
+  Qed.
+
+  (* body carriers whose responses fit *)
+  Section Body.
+    Hypothesis Hhead : carrier_head C = false.
+    Hypothesis Hfit : lens_ok o = true.
+
+    Lemma p_body : forallb bodyspec p = true.
+    Proof. now apply path_from_body. Qed.
+
+    Lemma call_detail_ok : detail_ok_call (mview e) o = true.
+    Proof.
+      unfold detail_ok_call. rewrite (ck_view _ _ _ _ Hok). fold p.
+      apply optb_eqb_eq. now apply body_code_detail; [apply p_ne | apply p_body].
+    Qed.
+
+    Lemma call_is_ok : single e = true -> range_clean e = true -> is_ok_call (mview e) o = true.
+    Proof.
+      intros Hs Hr. unfold is_ok_call. rewrite (ck_view _ _ _ _ Hok). fold p.
+      apply andb_true_iff. split.
+      - apply bool_list_eqb_eq. unfold mview. cbn [v_is]. apply map_ext. intros t.
+        pose proof p_ne as Hne. pose proof p_body as Hb.
+        destruct p as [|hs l]; [contradiction|]. now apply is_preserved_hops.
+      - destruct (body_code_detail p e p_ne p_body) as [Hc _]. rewrite Hc.
+        unfold mview at 1. cbn [v_code]. unfold marshal_code.
+        destruct (as_err e) as [w|]; cbn [option_map]; [|reflexivity].
+        destruct (w_code w) as [|b r]; [reflexivity|]. now apply optb_eqb_eq.
+    Qed.
+
+    Lemma call_msg : opwrap C = false -> v_msg (o_view o) = Some (wmsg sp cp e).
+    Proof.
+      intros Ho. rewrite (ck_view _ _ _ _ Hok). fold p. apply body_msg.
+      - apply p_ne.
+      - now apply path_from_plain.
+      - pose proof call_status_range. lia.
+    Qed.
+  End Body.
+
+  (* HEAD carriers *)
+  Section Head.
+    Hypothesis Hhead : carrier_head C = true.
+
+    Lemma call_head_view : o_view o = mview (head_result e).
+    Proof.
+      rewrite (ck_view _ _ _ _ Hok). fold p. apply head_view; [apply p_ne | now apply path_from_head].
+    Qed.
+
+    Lemma call_head_ok : head_ok_call o = true.
+    Proof.
+      unfold head_ok_call. destruct call_status as [-> _]. rewrite call_head_view.
+      apply andb_true_iff. split.
+      - apply bool_list_eqb_eq. unfold mview. cbn [v_is]. apply map_ext. intros t.
+        now rewrite (is_head_result sp cp), head_is_spec.
+      - apply optb_eqb_eq. unfold mview. cbn [v_code]. rewrite head_value_map.
+        unfold head_result. cbn [as_err].
+        destruct (head_map (marshal_status e)); reflexivity.
+    Qed.
+  End Head.
+End Call.
+
+(* ---------------------------------------------------------------- the whole case *)
+
+Lemma all_calls_In (f : nat -> callobs -> bool) l k o :
+  all_calls f k l = true -> In o l -> exists k', f k' o = true.
+Proof.
+  revert k. induction l as [|a l IH]; intros k; cbn; [contradiction|]. intros E [->|Hin].
+  - apply andb_true_iff in E as [E _]. eauto.
+  - apply andb_true_iff in E as [_ E]. eauto.
+Qed.
+
+Lemma existsb_false_In {A} (f : A -> bool) l a : existsb f l = false -> In a l -> f a = false.
+Proof.
+  intros H Hin. destruct (f a) eqn:E; [|reflexivity].
+  assert (existsb f l = true) by (apply existsb_exists; eauto). congruence.
+Qed.
+
+Lemma wire_code p e :
+  p <> [] -> forallb bodyspec p = true -> w_code (r_err (last_wire p e)) = marshal_code e.
+Proof.
+  intros Hne Hp. destruct (nonempty_snoc p Hne) as [l [hs ->]]. apply forallb_snoc in Hp as [Hl Hhs].
+  rewrite last_wire_snoc. cbn [r_err marshal_error w_code].
+  apply bodyspec_nowv in Hhs. unfold nowvspec in Hhs. apply andb_true_iff in Hhs as [Hs _].
+  rewrite (wrap_marshal_code sp cp) by assumption. now apply (code_preserved sp cp).
+Qed.
+
+Lemma ambig416_clean C e k o :
+  call_ok C e k o -> carrier_head C = false -> lens_ok o = true ->
+  negb (Bool.eqb (Z.eqb (o_wstatus o) 416 || beqb (o_wcode o) (s "RANGE_INVALID"))
+                 (nth 14 (v_is (mview e)) false)) = false ->
+  range_clean e = true.
+Proof.
+  intros Hok Hh Hfit H. apply negb_false_iff in H.
+  destruct (call_status C e k o Hok) as [Hst _]. rewrite Hst in H.
+  rewrite (ck_wcode _ _ _ _ Hok) in H.
+  rewrite wire_code in H by (try apply (p_ne C e k o Hok); now apply path_from_body).
+  change (nth 14 (v_is (mview e)) false) with (is e SRangeInvalid) in H.
+  change (s "RANGE_INVALID") with (std_code SRangeInvalid) in H.
+  unfold range_clean. rewrite beqb_sym in H.
+  destruct (Z.eqb (marshal_status e) 416), (beqb (std_code SRangeInvalid) (marshal_code e)),
+    (is e SRangeInvalid); cbn in *; congruence.
+Qed.
+
+Lemma corr_sound c : model_agrees c = true -> obs_ok c = true \/ known_case c = true.
+Proof.
+  destruct c as [se C f v0 calls].
+  unfold model_agrees, obs_ok, known_case, finding_of, oversize, ambig416, first_msg, field_ok_call.
+  cbn [c_err c_carrier c_field c_v0 c_calls].
+  set (e := to_gerr se). intros H.
+  apply andb_true_iff in H as [H Hall]. apply andb_true_iff in H as [Hv0 Hne].
+  apply view_eqb_eq in Hv0. subst v0. rewrite Hne. cbn [andb].
+  assert (Hcalls : forall o, In o calls -> exists o', o = OCall o' /\ exists k, call_ok C e k o').
+  { intros o Hin. destruct (all_calls_In _ _ _ _ Hall Hin) as [k Hk].
+    destruct o as [o|b]; [|discriminate Hk]. exists o. split; [reflexivity|].
+    exists k. now apply call_agrees_ok. }
+  assert (Hsingle : single e = true) by apply single_to_gerr.
+  destruct f.
+  - (* status *)
+    left. apply forallb_forall. intros o Hin. destruct (Hcalls o Hin) as [o' [-> [k Hk]]].
+    now apply (call_status_ok C e k).
+  - (* errors.Is *)
+    destruct (carrier_head C) eqn:Hh; [right; reflexivity|].
+    destruct (existsb _ calls) eqn:Eo; [right; reflexivity|].
+    assert (Hfit : forall o', In (OCall o') calls -> lens_ok o' = true).
+    { intros o' Hin. apply (existsb_false_In _ _ _ Eo) in Hin. now apply negb_false_iff in Hin. }
+    destruct calls as [|o1 rest]; [discriminate Hne|].
+    destruct (Hcalls o1 (or_introl eq_refl)) as [o1' [-> [k1 Hk1]]].
+    match goal with |- context [if ?b then KIs416 else KNone] => destruct b eqn:Ea end; [right; reflexivity|].
+    left. assert (Hr : range_clean e = true).
+    { apply (ambig416_clean C e k1 o1' Hk1 Hh); [apply Hfit; now left | exact Ea]. }
+    apply forallb_forall. intros o Hin. destruct (Hcalls o Hin) as [o' [-> [k Hk]]].
+    apply (call_is_ok C e k o' Hk Hh); auto.
+  - (* detail *)
+    destruct (carrier_head C) eqn:Hh; [right; reflexivity|].
+    destruct (existsb _ calls) eqn:Eo; [right; reflexivity|].
+    left. apply forallb_forall. intros o Hin. destruct (Hcalls o Hin) as [o' [-> [k Hk]]].
+    apply (call_detail_ok C e k o' Hk Hh).
+    apply (existsb_false_In _ _ _ Eo) in Hin. now apply negb_false_iff in Hin.
+  - (* message *)
+    destruct calls as [|o1 rest]; [discriminate Hne|].
+    destruct (Hcalls o1 (or_introl eq_refl)) as [o1' [-> [k1 Hk1]]].
+    destruct (carrier_head C) eqn:Hh.
+    + left. apply forallb_forall. intros o Hin. destruct (Hcalls o Hin) as [o' [-> [k Hk]]].
+      unfold message_ok_call. apply optb_eqb_eq.
+      now rewrite (call_head_view C e k o' Hk Hh), (call_head_view C e k1 o1' Hk1 Hh).
+    + destruct (existsb _ (OCall o1' :: rest)) eqn:Eo; [right; reflexivity|].
+      destruct (opwrap C) eqn:Hop; [right; reflexivity|].
+      left. assert (Hfit : forall o', In (OCall o') (OCall o1' :: rest) -> lens_ok o' = true).
+      { intros o' Hin. apply (existsb_false_In _ _ _ Eo) in Hin. now apply negb_false_iff in Hin. }
+      apply forallb_forall. intros o Hin. destruct (Hcalls o Hin) as [o' [-> [k Hk]]].
+      unfold message_ok_call. apply optb_eqb_eq.
+      rewrite (call_msg C e k o' Hk Hh (Hfit _ Hin) Hop).
+      now rewrite (call_msg C e k1 o1' Hk1 Hh (Hfit _ (or_introl eq_refl)) Hop).
+  - (* HEAD fallback *)
+    left. apply forallb_forall. intros o Hin. destruct (Hcalls o Hin) as [o' [-> [k Hk]]].
+    destruct (carrier_head C) eqn:Hh; [|reflexivity]. cbn [negb orb].
+    now apply (call_head_ok C e k).
+Qed.
